@@ -126,7 +126,7 @@ def loadPsf2 (data : List Nat) : Res BitFont :=
 def fromBytes (data : List Nat) : Res BitFont :=
   match data with
   | a :: b :: c :: d :: _ =>
-    if a = 0x36 ∧ b = 0x04 then loadPsf1 data
+    if a = 0x36 ∧ b = 0x04 then (if d = 0 then .err else loadPsf1 data)     -- a PSF1 character size of 0 is rejected
     else if le32 a b c d = psf2Magic then loadPsf2 data
     else loadPlain data
   | _ => .err
